@@ -1,0 +1,63 @@
+//go:build verif
+// +build verif
+
+package plumbing
+
+import (
+	"sort"
+
+	"gopkg.in/src-d/go-git.v4/plumbing"
+	"gopkg.in/src-d/go-git.v4/plumbing/object"
+)
+
+// VerifC13Less is sortableChange.Less on two bare hashes (read-only).
+func VerifC13Less(a, b plumbing.Hash) bool {
+	x := sortableChange{hash: a}
+	y := sortableChange{hash: b}
+	return x.Less(&y)
+}
+
+// VerifC13SortByHash builds the same sortableChanges value as stage 1 of RenameAnalysis.Consume does
+// for the given changes and hashes, sorts it with sort.Sort and returns the changes in sorted order.
+func VerifC13SortByHash(changes []*object.Change, hashes []plumbing.Hash) []*object.Change {
+	s := make(sortableChanges, 0, len(changes))
+	for i, c := range changes {
+		s = append(s, sortableChange{c, hashes[i]})
+	}
+	sort.Sort(s)
+	res := make([]*object.Change, len(s))
+	for i := range s {
+		res[i] = s[i].change
+	}
+	return res
+}
+
+// VerifC13SortBySize builds the same sortableBlobs value as stage 2 of RenameAnalysis.Consume does,
+// sorts it with sort.Sort and returns the changes in sorted order.
+func VerifC13SortBySize(changes []*object.Change, sizes []int64) []*object.Change {
+	s := make(sortableBlobs, 0, len(changes))
+	for i, c := range changes {
+		s = append(s, sortableBlob{change: c, size: sizes[i]})
+	}
+	sort.Sort(s)
+	res := make([]*object.Change, len(s))
+	for i := range s {
+		res[i] = s[i].change
+	}
+	return res
+}
+
+// VerifC13SortRenameCandidates is sortRenameCandidates (sorts candidates in place).
+func VerifC13SortRenameCandidates(candidates []int, origin string, nameGetter func(int) string) {
+	sortRenameCandidates(candidates, origin, nameGetter)
+}
+
+// VerifC13SizesAreClose is RenameAnalysis.sizesAreClose.
+func (ra *RenameAnalysis) VerifC13SizesAreClose(size1 int64, size2 int64) bool {
+	return ra.sizesAreClose(size1, size2)
+}
+
+// VerifC13BlobsAreClose is RenameAnalysis.blobsAreClose.
+func (ra *RenameAnalysis) VerifC13BlobsAreClose(blob1 *CachedBlob, blob2 *CachedBlob) (bool, error) {
+	return ra.blobsAreClose(blob1, blob2)
+}
